@@ -17,10 +17,20 @@ def run(tier):
     L = impl.lib()
     inputs = C01.build_inputs(ck, tier, ck.rng)
     jobs = sweep.expand_jobs(inputs, ["readout"], ck.rng)
+    # a caller who edits a preparation circuit it was given must not influence later readout circuits of the same class: for the graph state of every
+    # table line (n = 5, 6) request the preparation circuit (the worker then scribbles over it) and then the readout circuit of a locally rotated member
+    for inp in sweep.inputs_table_graphs(L, ns=(5, 6)):
+        if ck.rng.random() < (0.35 if tier == "quick" else 1.0):
+            j = dict(inp, api="prep", conn=inp["only_conn"], fmt="graph")
+            layer = impl.random_local_layer(inp["n"], ck.rng)
+            k = dict(inp, api="readout", conn=inp["only_conn"], fmt="matrices", codes=impl.apply_gates_codes(layer, inp["codes"]), graph=None, program=None)
+            k["alt"] = [c % impl.W2 + impl.W2 * ck.rng.randrange(2) for c in k["codes"]]
+            jobs += [j, k]
     sweeps = sweep.sign_sweep_jobs(inputs, "readout", ck.rng)
     traces, verdicts = sweep.run_jobs(ck, L, jobs, "readout", sweeps=sweeps)
     ck.cov["sign_sweeps_in_one_process"] = len(sweeps)
-    sweep.report(ck, "C03", traces, verdicts, CLAUSES)
+    pairs = [(t, v) for t, v in zip(traces, verdicts) if t["kind"] == "readout"]
+    sweep.report(ck, "C03", [p[0] for p in pairs], [p[1] for p in pairs], CLAUSES)
     alt = sum(1 for t in traces if t["hasalt"] and t["alt"] == t["gates"] and any(a != b for a, b in zip(t["target"], [c % impl.W2 for c in t["target"]])))
     ck.cov["traces_with_second_sign_vector"] = sum(t["hasalt"] for t in traces)
     if not any(t["hasalt"] for t in traces):
